@@ -4,6 +4,7 @@
    chk;<g6>;<cls>;<gens>;<ds>    full certificate (brute-force Aut, n small)
    chkp;<g6>;<cls>;<gens>;<ds>   partial certificate (generators are automorphisms, array = orbits
                                  of the generators)
+   big;<g6>;<cls>;<gens>;<ds>;<known>   as chkp (n = 17..70; the known automorphisms are used by the harness only)
    any other mode (o, seq)       oracle-only cases of the harness: "ok"
 
    <gens>/<ds> are the generators and the orbit array that the implementation returned for the
@@ -17,12 +18,16 @@ let ints l = if l = [] then "-" else String.concat "," (List.map string_of_int l
 let nats l = ints (List.map int_of_nat l)
 
 let parse_g6 (s : string) : int * bool list list =
-  let n = Char.code s.[0] - 63 in
+  (* one size byte for n <= 62, "~" and three bytes above *)
+  let n, off =
+    if s.[0] = '~' then
+      (((Char.code s.[1] - 63) lsl 12) lor ((Char.code s.[2] - 63) lsl 6) lor (Char.code s.[3] - 63), 3)
+    else (Char.code s.[0] - 63, 0) in
   let a = Array.make_matrix n n false in
   let k = ref 0 in
   for j = 1 to n - 1 do
     for i = 0 to j - 1 do
-      let c = Char.code s.[1 + !k / 6] - 63 in
+      let c = Char.code s.[off + 1 + !k / 6] - 63 in
       if (c lsr (5 - !k mod 6)) land 1 = 1 then begin a.(i).(j) <- true; a.(j).(i) <- true end;
       incr k
     done
@@ -141,6 +146,7 @@ let () =
         match mode, f with
         | "chk", [_; g6; cls; gens; ds] -> (try check true g6 cls gens ds with _ -> "badcase")
         | "chkp", [_; g6; cls; gens; ds] -> (try check false g6 cls gens ds with _ -> "badcase")
+        | "big", [_; g6; cls; gens; ds; _] -> (try check false g6 cls gens ds with _ -> "badcase")
         | ("chk" | "chkp"), _ -> "badcase"
         | "rst", [_; capn; items] ->
           (try reset_case (int_of_string capn) (List.filter (fun x -> x <> "") (String.split_on_char ' ' items)) with _ -> "badcase")
